@@ -1,3 +1,87 @@
 import KsiVerif.Util.DriverMain
-open KsiVerif
-def main : IO Unit := runDriver (fun i _ => "skip no-model-yet " ++ i)
+import KsiVerif.Model.PubString
+/-! Model driver for C17 — protocol in harness/exec_c17.c. -/
+open KsiVerif KsiVerif.Pub
+
+def verdict (cls model impl : String) (spec : Option String) : String :=
+  match spec with
+  | some why => s!"specfail {cls} {why}"
+  | none => if model == impl then s!"ok {cls}" else s!"diff {cls} model={model}"
+
+/-- spec decoder (RFC 4648 alphabet written out, independent of the generated tables): only
+alphabet symbols before the first `=` carry bits -/
+def specValue (c : UInt8) : Option Nat :=
+  let n := c.toNat
+  if 65 ≤ n ∧ n ≤ 90 then some (n - 65)
+  else if 97 ≤ n ∧ n ≤ 122 then some (n - 97)
+  else if 50 ≤ n ∧ n ≤ 55 then some (n - 50 + 26)
+  else none
+
+def specDecode (s : List UInt8) : Bytes :=
+  let body := s.takeWhile (· != 61)
+  bitsToBytes ((body.filterMap specValue).map fiveBits).flatten
+
+def handle (inp out : String) : String :=
+  let ow := words out
+  match words inp with
+  | ["b32enc", hx, g] =>
+    match ofHex hx, g.toNat? with
+    | some b, some gl =>
+      let ms := if b.isEmpty then s!"{St.INVALID_ARGUMENT} -" else s!"0 {String.ofList (b32encode b gl)}"
+      -- oracle: decoding what the implementation produced (with the model decoder) gives the data back
+      let spec := match ow with
+        | ["0", s] => match b32decode (s.toList.map fun c => UInt8.ofNat c.toNat) with
+          | .ok d => if d == b then none else some "encoding-does-not-decode-to-the-data"
+          | .error _ => some "encoding-not-decodable"
+        | _ => none
+      verdict s!"b32enc:g{gl}" ms out spec
+    | _, _ => "skip bad-args"
+  | ["b32dec", hx] =>
+    match ofHex hx with
+    | some s =>
+      let ms := match b32decode s with
+        | .ok d => s!"0 {toHex d}"
+        | .error e => s!"{e} -"
+      let spec := match ow with
+        | ["0", d] => if d == toHex (specDecode s) then none else some "non-alphabet-character-contributed-bits-or-symbols-misdecoded"
+        | _ => none
+      verdict s!"b32dec:{(ms.splitOn " ").head!}" ms out spec
+    | none => "skip bad-hex"
+  | ["crc", hx] =>
+    match ofHex hx with
+    | some b => verdict "crc" s!"{crc32 b}" out none
+    | none => "skip bad-hex"
+  | ["topub", t, ih, ref] =>
+    match t.toNat?, ofHex ih with
+    | some time, some imp =>
+      let ms := s!"0 {String.ofList (toPubString time imp)}"
+      let spec := match ow with
+        | ["0", s] =>
+          -- the reference fixes the symbols and their grouping; the layout of the trailing `=` padding is not part of it
+          let strip (x : String) : String := String.ofList (x.toList.reverse.dropWhile (fun c => c == '=' || c == '-')).reverse
+          if strip s != strip ref then some "string-differs-from-reference-encoding" else none
+        | _ => some "valid-publication-data-not-encoded"
+      verdict "topub" ms out spec
+    | _, _ => "skip bad-args"
+  | ["frompub", hx, expect] =>
+    match ofHex hx with
+    | some s =>
+      let m := fromPubString s
+      let ms := match m with
+        | .ok (t, imp) => s!"0 {t} {toHex imp}"
+        | .error e => s!"{e} - -"
+      let spec : Option String :=
+        match expect.splitOn ":" with
+        | ["ok", t, ih] =>
+          if ow == ["0", t, ih] then none else some "valid-string-not-decoded-to-its-data"
+        | ["same", t, ih] =>
+          (match ow with
+           | "0" :: rest => if rest == [t, ih] then none else some "corrupted-string-accepted-with-different-data"
+           | _ => none)
+        | _ => none
+      let cls := match m with | .ok _ => "ok" | .error e => s!"err{e}"
+      verdict s!"frompub:{(expect.splitOn ":").head!}:{cls}" ms out spec
+    | none => "skip bad-hex"
+  | _ => "skip unknown-op"
+
+def main : IO Unit := runDriver handle
